@@ -4,6 +4,7 @@ package plugfam
 // Exhaustive enumeration: 32 capability tuples x whole registry x all names.
 
 import (
+	"context"
 	"fmt"
 	"sort"
 	"strings"
@@ -15,6 +16,8 @@ import (
 	"github.com/google/osv-scalibr/extractor/filesystem"
 	el "github.com/google/osv-scalibr/extractor/filesystem/list"
 	"github.com/google/osv-scalibr/extractor/standalone"
+	scalibrfs "github.com/google/osv-scalibr/fs"
+	"github.com/google/osv-scalibr/packageindex"
 	sl "github.com/google/osv-scalibr/extractor/standalone/list"
 	"github.com/google/osv-scalibr/plugin"
 
@@ -550,6 +553,50 @@ func TestC19(t *testing.T) {
 			}
 		}
 	}
+	// (10) "every extractor a detector declares as required can be enabled automatically", end
+	// to end: a scan configured with nothing but a detector that declares the extractor (a stub
+	// standing in for the built-in detectors that declare it, which are not run here) enables
+	// it itself and runs it, so the extractor has a status entry in the result.
+	{
+		needed := map[string][]string{}
+		for _, k := range keysOfDet(dl.All) {
+			ds, err := dl.DetectorsFromNames([]string{k})
+			if err != nil {
+				continue
+			}
+			for _, d := range ds {
+				for _, r := range d.RequiredExtractors() {
+					needed[r] = append(needed[r], d.Name())
+				}
+			}
+		}
+		for _, name := range sortedKeys(needed) {
+			if _, err := el.ExtractorsFromNames([]string{name}); err != nil {
+				continue // a standalone extractor: those look at the running system, not at the scan root
+			}
+			cfg := &scalibr.ScanConfig{
+				Detectors:    []detector.Detector{stubDetector{req: []string{name}}},
+				ScanRoots:    scalibrfs.RealFSScanRoots(t.TempDir()),
+				Capabilities: &plugin.Capabilities{OS: plugin.OSLinux, Network: plugin.NetworkOnline, DirectFS: true, RunningSystem: true},
+			}
+			res := scalibr.New().Scan(context.Background(), cfg)
+			var err error
+			n := 0
+			for _, st := range res.PluginStatus {
+				if st.Name == name {
+					n++
+				}
+			}
+			if res.Status == nil || res.Status.Status != plugin.ScanStatusSucceeded {
+				err = fmt.Errorf("scan with a detector that requires %q (as %v do) fails: %+v", name, needed[name], res.Status)
+			} else if n != 1 {
+				err = fmt.Errorf("scan with a detector that requires %q (as %v do): the extractor has %d status entries in the result, it was not enabled and run", name, needed[name], n)
+			}
+			if !e.Report(capCase{Check: "required_extractor_runs_in_scan", Kind: "detector", Name: name}, ev.Outcome{NonTrivial: true, Classes: []string{"required_extractor_runs_in_scan"}}, err) {
+				return
+			}
+		}
+	}
 	// (7) two names resolved together: no plugin twice, and exactly the plugins the two names
 	// resolve to one by one (every ordered pair of registry keys and group names)
 	{
@@ -732,6 +779,26 @@ func keysOfDet(m dl.InitMap) []string {
 		}
 	}
 	out = uniqStrings(out)
+	sort.Strings(out)
+	return out
+}
+
+// stubDetector declares required extractors and finds nothing.
+type stubDetector struct{ req []string }
+
+func (stubDetector) Name() string                       { return "verif/stub-detector" }
+func (stubDetector) Version() int                       { return 1 }
+func (stubDetector) Requirements() *plugin.Capabilities { return &plugin.Capabilities{} }
+func (d stubDetector) RequiredExtractors() []string     { return d.req }
+func (stubDetector) Scan(context.Context, *scalibrfs.ScanRoot, *packageindex.PackageIndex) ([]*detector.Finding, error) {
+	return nil, nil
+}
+
+func sortedKeys(m map[string][]string) []string {
+	var out []string
+	for k := range m {
+		out = append(out, k)
+	}
 	sort.Strings(out)
 	return out
 }
